@@ -8,6 +8,7 @@
 //   run <14 regs> <npokes> (<addr> <val>)* <nlabels> (<name> <map>)* | <instruction line>
 //        -> outcome, 14 regs, then the poked cells and their successors
 //   asm <source text, "\\n" for a line break>        the real assembler on that text -> emitted code / data lines or the diagnostic
+//   data <line>                                     the real data loader on one emitted data line (fresh machine, counter 0) -> ok / error text
 //   dump cells: after `run`, `cells <addr>*` are appended to the same request:  ... ; <addr>*
 #[path = "../../spec/i8086_spec.rs"]
 mod spec;
@@ -293,6 +294,20 @@ fn asm(rest: &str) -> String {
     })
 }
 
+/// the real data loader on one line
+fn data(rest: &str) -> String {
+    let line = rest.trim().to_string();
+    catch(move || {
+        let p = lib::DataParser::new();
+        let mut vm = VM::new();
+        let mut ctr = 0;
+        match p.parse(&mut vm, &mut ctr, &line) {
+            Ok(_) => format!("{{\"ok\":true,\"counter\":{}}}", ctr),
+            Err(e) => format!("{{\"ok\":false,\"error\":{}}}", jstr(&format!("{}", e))),
+        }
+    })
+}
+
 fn main() {
     std::panic::set_hook(Box::new(|_| {}));
     let stdin = std::io::stdin();
@@ -311,6 +326,7 @@ fn main() {
             "l1n" => { let (f, a, b, c) = (t[0].clone(), n(1), n(2), n(3)); catch(move || l1n(&f, a, b, c)) }
             "run" => run(rest),
             "asm" => asm(rest),
+            "data" => data(rest),
             _ => "{\"error\":\"unknown command\"}".to_string(),
         };
         println!("{}", out);
